@@ -74,8 +74,10 @@ Roots == {Obj("Root", [n \in {"a"} |-> v]) : v \in Pool}
 \* graphs for the skip-list properties: names reused at several depths
 \* (skipping is by ATTRIBUTE name: dictionary keys that happen to equal a skipped name are data and stay)
 KeyedLikeNames == Dict([k \in {"a", "c"} |-> IF k = "a" THEN PyInt ELSE PyStr])
+\* (NumPy scalars and Paths are STORED as Python builtins but are not instances of them: skipping `int`, `bool`
+\* or `str` by type - at save or at load - must leave them alone)
 SkipLeaf == {PyInt, PyStr, Arr1d, TenPlain, PyBool, List(<<PyInt, PyStr>>), KeyedLikeNames,
-             List(<<Dict([k \in {"b"} |-> PyInt]), PyStr>>)}
+             List(<<Dict([k \in {"b"} |-> PyInt]), PyStr>>), NpInt, NpBool, PyPath}
 Lvl3 == {Obj("Inner", m) : m \in Maps({PyInt, Arr1d}, {"a", "c"})}
 Lvl2 == {Obj("Inner", m) : m \in [{"a", "b"} -> {PyStr}] \cup {[n \in {"a", "c"} |-> IF n = "a" THEN PyInt ELSE o] : o \in Lvl3}}
 SkipRoots == {Obj("Root", [n \in {"a", "b", "c"} |-> IF n = "a" THEN x ELSE IF n = "b" THEN y ELSE o])
@@ -118,7 +120,9 @@ NamesAbsent(v, S) ==
   v.k = "obj" => (DOMAIN v.map \cap S = {} /\ \A n \in DOMAIN v.map : NamesAbsent(v.map[n], S))
 
 SkippedAbsent   == pc = "loaded" => NamesAbsent(mem, skN)
-OthersUntouched == pc = "loaded" => mem = Strip(Norm(o), skN, skT)
+\* (types are judged on the ORIGINAL values - an np.int64 is not an int although it is stored and loaded as one -
+\* so the graph is stripped first and normalised afterwards)
+OthersUntouched == pc = "loaded" => mem = Norm(Strip(o, skN, skT))
 Persisted       == pc = "loaded" => Load(disk, skN, skT) = mem
 SaveEqLoad      == (pc = "loaded" /\ skT = {}) => Load(Save(o, {}, {}), skN, {}) = mem
 LoadSkipBoth    == pc = "loaded" => \A S2 \in {{"a"}, {"c"}, {"b", "zz"}} :
